@@ -226,7 +226,11 @@ def _run_shard(pid, shard, limit=None, tag="", nontrivial=None):
     r = run_tlc(shard.module, shard.cfg, wd, env={"TRACE_FILE": path},
                 workers=1, heap=shard.heap)
     err = None
-    if not r.ok:
+    if not r.ok and "FIX_OVERFLOW" in (r.out or ""):
+        # an intermediate value left the 1e36 range of Fix: reported as a clause at the line TLC had reached
+        ls = re.findall(r"/\\ l = (\d+)", r.out)
+        r.verdicts.append((int(ls[-1]) if ls else 1, ["FIX_OVERFLOW"]))
+    elif not r.ok:
         err = r.error
     elif r.distinct != n + 1:
         err = "trace not fully consumed: %d states for %d events" % (r.distinct, n)
